@@ -329,11 +329,44 @@ pub fn generate(project: &Project, seed: u64, max_len: usize, check_every_step: 
     if rng.chance(1, 2) {
         ops.push(Op::Check);
     }
+    // The crate root (the file that declares the modules) and a module that does not exist yet.
+    let root_file = files.iter().find(|f| f.ends_with("lib.cairo")).cloned().unwrap_or_else(|| files[0].clone());
+    let extra_file = root_file.replace("lib.cairo", "verif_extra.cairo");
     let mut n_edits = 0;
     let mut guard = 0;
     while n_edits < len && guard < 1000 {
         guard += 1;
-        let file = files[rng.below(files.len())].clone();
+        let mut file = files[rng.below(files.len())].clone();
+        // Module-structure edits: declare a new module (with or without giving it a file), give
+        // the file later, remove the declaration again, edit the new module.
+        let declared = world.effective(&root_file).map(|c| c.contains("mod verif_extra;")).unwrap_or(false);
+        let has_extra = world.overrides.contains_key(&extra_file);
+        if rng.chance(1, 14) {
+            let cur = world.effective(&root_file).unwrap_or_default();
+            let (kind, f, content) = match (declared, has_extra, rng.below(3)) {
+                (false, _, _) => ("declare_new_module", root_file.clone(), format!("mod verif_extra;\n{cur}")),
+                (true, false, _) => (
+                    "create_new_module_file",
+                    extra_file.clone(),
+                    "pub fn extra_value() -> felt252 {\n    41\n}\n\nfn extra_bad() -> u8 {\n    let unused_in_extra = 1;\n    256\n}\n".to_string(),
+                ),
+                (true, true, 0) => ("remove_module_declaration", root_file.clone(), cur.replacen("mod verif_extra;\n", "", 1)),
+                (true, true, _) => {
+                    file = extra_file.clone();
+                    ("", String::new(), String::new())
+                }
+            };
+            if !kind.is_empty() {
+                world.overrides.insert(f.clone(), content.clone());
+                ops.push(Op::SetOverride { file: f, content, kind: kind.into() });
+                n_edits += 1;
+                if (rng.below(100) as u32) < p_check {
+                    ops.push(Op::Check);
+                }
+                continue;
+            }
+        }
+        let original = project.files.get(&file).cloned().unwrap_or_default();
         let roll = rng.below(100) as u32;
         if roll < 6 && world.overrides.contains_key(&file) {
             world.overrides.remove(&file);
@@ -362,7 +395,7 @@ pub fn generate(project: &Project, seed: u64, max_len: usize, check_every_step: 
                     ops.push(Op::DiskDelete { file });
                 }
                 _ => {
-                    let c = project.files[&file].clone();
+                    let c = original.clone();
                     world.disk.insert(file.clone(), Some(c.clone()));
                     ops.push(Op::DiskWrite { file, content: c, kind: "restore_original".into() });
                 }
@@ -373,7 +406,7 @@ pub fn generate(project: &Project, seed: u64, max_len: usize, check_every_step: 
             let (kind, content): (String, String) = if last_good.contains_key(&file) && special < 35 {
                 ("repair_restore_last_good".into(), last_good[&file].clone())
             } else if special < 5 {
-                ("revert_to_original".into(), project.files[&file].clone())
+                ("revert_to_original".into(), original.clone())
             } else if special < 8 {
                 let other = &files[rng.below(files.len())];
                 ("replace_with_other_file".into(), world.effective(other).unwrap_or_default())
